@@ -9,7 +9,9 @@ import (
 	"path/filepath"
 	"sort"
 	"strings"
+	"time"
 
+	"github.com/bitcoin-sv/block-headers-service/config"
 	"github.com/bitcoin-sv/block-headers-service/transports/p2p"
 	"github.com/bitcoin-sv/block-headers-service/transports/p2p/connmgr"
 )
@@ -21,10 +23,13 @@ func init() { register("C18", runC18) }
 //
 //	adm mp=<MaxPeers> ip=<MaxPeersPerIP> D=<ban duration, units>;<event>;<event>;...
 //	cm t=<target> mf=<maxFailedAttempts>;<event>;<event>;...
+//	wr t=<target> mf=<maxFailedAttempts>;<event>;...   (real server wired to the real connmgr)
 //
 // see c18_adm.go / c18_cm.go for the event syntax and the observables.
 func runC18(c *Ctx) error {
 	if c.Only != "" {
+		c18CmBound = 600 * time.Millisecond
+		defer c18StackClose()
 		return c18One(c, c.Only, "replay")
 	}
 	// fixed corpus first
@@ -61,7 +66,39 @@ func runC18(c *Ctx) error {
 	if err := c18GenAdm(c); err != nil {
 		return err
 	}
-	return c18GenCm(c)
+	if err := c18GenCm(c); err != nil {
+		return err
+	}
+	st, err := c18Stack(c)
+	if err != nil {
+		return err
+	}
+	defer c18StackClose()
+	return c18GenWr(c, st)
+}
+
+// the real service stack (SQLite + services) the wired cases' sync manager works on; opened once
+var c18St *Stack
+
+func c18Stack(c *Ctx) (*Stack, error) {
+	if c18St != nil {
+		return c18St, nil
+	}
+	// what config.Load does before the services are built (HeaderService.IsCurrent indexes the list)
+	config.Checkpoints = config.ActiveNetParams.Checkpoints
+	st, err := NewStack(StackOpts{Dir: c.TmpDir("c18w")})
+	if err != nil {
+		return nil, err
+	}
+	c18St = st
+	return st, nil
+}
+
+func c18StackClose() {
+	if c18St != nil {
+		c18St.Close()
+		c18St = nil
+	}
 }
 
 func c18One(c *Ctx, input, class string) error {
@@ -80,6 +117,14 @@ func c18One(c *Ctx, input, class string) error {
 		obs := c18RunCm(head, toks[1:])
 		c.Case(input, obs)
 		c.Count("cm:" + class)
+	case "wr":
+		st, err := c18Stack(c)
+		if err != nil {
+			return err
+		}
+		obs := c18RunWr(head, toks[1:], st)
+		c.Case(input, obs)
+		c.Count("wr:" + class)
 	default:
 		c.Case(input, "BAD-INPUT")
 	}
